@@ -210,10 +210,18 @@ def stack_functions(msg):
         if l.startswith('panic(') or l.startswith('runtime.throw') or l.startswith('runtime.fatal'):
             start = i + 1
     if start == 0:
-        for i, l in enumerate(lines):
-            if re.match(r'goroutine \d+ .*\[running', l):
+        # goroutine dump (SIGQUIT): the evaluating goroutine is the one with fq's main loop on its stack
+        blocks = [i for i, l in enumerate(lines) if l.startswith('goroutine ')]
+        for b, i in enumerate(blocks):
+            end = blocks[b + 1] if b + 1 < len(blocks) else len(lines)
+            if any('(*Interp).Main(' in l for l in lines[i:end]):
                 start = i + 1
                 break
+        else:
+            for i, l in enumerate(lines):
+                if re.match(r'goroutine \d+ .*\[running', l):
+                    start = i + 1
+                    break
     out = []
     for l in lines[start:]:
         if l.startswith('goroutine ') and out:
